@@ -319,11 +319,19 @@ def _input_spec():
     wide = st.fixed_dictionaries({'fam': st.just('mutated'), 'seed': st.sampled_from(sorted(SEEDS)),
                                   'muts': st.lists(M.mutation_spec(['num-wide']), min_size=1, max_size=1)})
     near = st.fixed_dictionaries({'fam': st.just('near-bystander'), 'i': st.integers(0, 2), 'k': st.integers(0, 19)})
-    return st.one_of(raw, raw_framed, raw_framed, seed, mutated, mutated, mutated, mutated, near, wide)
+    victim = st.fixed_dictionaries({'fam': st.just('nack-victim'), 'i': st.integers(0, 2), 'reason': st.sampled_from([50, 100, 150, 0])})
+    return st.one_of(raw, raw_framed, raw_framed, seed, mutated, mutated, mutated, mutated, near, wide, victim)
+
+
+VICTIM_DIGEST = T.enc_tlv(1, b'\x5a' * 32)
 
 
 def build_input(spec):
     fam = spec['fam']
+    if fam == 'nack-victim':
+        # a Nack for the Interest  /keep/p<i>/<implicit digest Z>  (pending when the case has `victims`): it addresses that Interest
+        # only - the bystander waiting for /keep/p<i> on the very same name-tree node is none of its business
+        return net.lp_wrap(net.interest_wire([KEEP, net.comp(f'p{spec["i"]}'), VICTIM_DIGEST], nonce=7), nack_reason=spec['reason'])
     if fam == 'near-bystander':
         # valid packets nobody waits for, whose names are close to - but do not match - the bystanders' names:
         # Data with a LONGER name than a pending Interest that has no CanBePrefix, Data for the parent, a Nack for a
@@ -373,7 +381,7 @@ def framed_ok(w):
 def _robust_case(target):
     return st.fixed_dictionaries({
         'target': st.just(target),
-        'n_pending': st.integers(0, 3), 'n_handlers': st.integers(0, 3),
+        'n_pending': st.integers(0, 3), 'victims': st.sampled_from([False, False, True]), 'n_handlers': st.integers(0, 3),
         'inputs': st.lists(_input_spec(), min_size=1, max_size=6),
         'mode': st.sampled_from(['await', 'task']),
         'debug_log': st.sampled_from([False, False, False, True]),
@@ -397,6 +405,9 @@ def run_robust(case):
         for i in range(case['n_pending']):
             nm = [KEEP, net.comp(f'p{i}')]
             pend.append((nm, sim.express(nm, lifetime=4000, vlat=0.0, verdict=_verdict(fe, True))))
+            if case.get('victims'):
+                # (not a bystander: the `nack-victim` inputs address it)
+                sim.express(nm + [VICTIM_DIGEST], lifetime=4000, vlat=0.0, verdict=_verdict(fe, True))
         hcalls = []
         for i in range(case['n_handlers']):
             pf = [KEEP, net.comp(f'h{i}')]
@@ -420,7 +431,7 @@ def run_robust(case):
         n_eval = 0
         for spec in case['inputs']:
             w = build_input(spec)
-            if b'keep' in w and spec['fam'] != 'near-bystander':
+            if b'keep' in w and spec['fam'] not in ('near-bystander', 'nack-victim'):
                 continue
             ok_frame = framed_ok(w)
             if not target.startswith('udp') and not ok_frame:
